@@ -331,13 +331,25 @@ def dup_option_inputs():
     return out
 
 
+RUST_KEYWORDS = set("""as break const continue crate else enum extern false fn for if impl in let loop match mod move mut pub
+ref return self Self static struct super trait true type unsafe use where while async await dyn abstract become box do final
+macro override priv typeof unsized virtual yield try""".split())
+
+
+def keyword_pattern(structure):
+    """syn 1.x parses `let mut <keyword> = …` as an identifier pattern; such input is outside the DSL vocabulary."""
+    return any(m in RUST_KEYWORDS for m in re.findall(r"pat :: [^;]*? :: i:(\S+)", structure))
+
+
 def judge_total(ctx, r, must_reject=None):
     """C15 oracle on one real expansion.  Returns a violation description or None."""
     if r.parse.startswith("panic:") and "CfgReject" not in r.parse:
         return "the parser panicked: " + r.parse
+    if r.parse == "ok" and r.dot_ok == "0":
+        return None     # outside the property's quantifier: a member-access operand that is not a member access
     if r.parse == "ok" and k1.outcome_class(r.gen) == "internal":
         return "the generator died with an internal panic: " + r.gen
-    if r.parse == "ok" and r.gen == "ok" and r.valid == "0":
+    if r.parse == "ok" and r.gen == "ok" and r.valid == "0" and not keyword_pattern(r.structure):
         return "the emitted tokens are not a syntactically valid Rust expression (syn::parse2::<Expr> rejects them)"
     if must_reject and r.parse == "ok" and r.gen == "ok":
         return "structurally invalid input (%s) was accepted silently" % must_reject
